@@ -176,7 +176,8 @@ func (d *distinctEngine) dedupConstructOnPath(f *ssa.Function, v ssa.Value, dept
 	seen := map[ssa.Value]bool{}
 	var walk func(x ssa.Value, dd int)
 	guardedByLookup := func(blk *ssa.BasicBlock) bool {
-		for _, b := range f.Blocks {
+		// the append may sit in a closure of f (collect := func(id string) { if seen .. })
+		for _, b := range blk.Parent().Blocks {
 			_, _, ifi := ifSuccs(b)
 			if ifi == nil || !(b == blk || b.Dominates(blk)) {
 				continue
@@ -267,7 +268,9 @@ func (d *distinctEngine) dedupConstructOnPath(f *ssa.Function, v ssa.Value, dept
 				return
 			case p == "slices" && n == "Compact":
 				found = true
-				if !sortedCompact(f, y) && !anySortBefore(f, y) {
+				if pc := partialComparator(d.w, f, y); pc != "" {
+					badCompact = pc + ": whole-element duplicates need not be adjacent after the sort, and slices.Compact removes adjacent duplicates only"
+				} else if !sortedCompact(f, y) && !anySortBefore(f, y) {
 					badCompact = "slices.Compact at " + d.w.Pos(y.Pos()) + " removes adjacent duplicates only and the list is not sorted before"
 				}
 				return
@@ -331,6 +334,36 @@ func (d *distinctEngine) dedupConstructOnPath(f *ssa.Function, v ssa.Value, dept
 				walk(lc.Call.Args[0], dd+1)
 			}
 		case *ssa.UnOp:
+			// a result kept in a variable: everything stored into it, also by (deferred) closures
+			if al, ok := y.X.(*ssa.Alloc); ok && y.Op == token.MUL {
+				for _, sv := range storesInto(al) {
+					walk(sv, dd+1)
+				}
+				return
+			}
+			if fv, ok := y.X.(*ssa.FreeVar); ok && y.Op == token.MUL {
+				// inside a closure: the captured variable of the parent
+				if par := f.Parent(); par != nil {
+					instrs(par, func(in ssa.Instruction) {
+						mc, ok := in.(*ssa.MakeClosure)
+						if !ok || mc.Fn != ssa.Value(f) {
+							return
+						}
+						for i, b := range mc.Bindings {
+							if i < len(f.FreeVars) && f.FreeVars[i] == fv {
+								if al, ok := b.(*ssa.Alloc); ok {
+									for _, sv := range storesInto(al) {
+										if !seen[sv] {
+											walk(sv, dd+1)
+										}
+									}
+								}
+							}
+						}
+					})
+				}
+				return
+			}
 			walk(y.X, dd+1)
 		}
 	}
@@ -1744,6 +1777,14 @@ func ruleNoSkip(w *World, r *Report, fn string) {
 			if builtinName(x) == "append" {
 				return true
 			}
+			if mc, ok := resolve(x.Call.Value).(*ssa.MakeClosure); ok {
+				if fn, ok := mc.Fn.(*ssa.Function); ok {
+					cs := effectsFor(w).Summary(fn)
+					if len(cs.WritesFree) > 0 || len(cs.WritesFreeDeep) > 0 {
+						return true
+					}
+				}
+			}
 			if g := calleeOf(x); g != nil && isSetter(w, g) {
 				// re-initialising a scratch object the function itself allocated
 				// (s := &T{}; s.Reset(id)) records nothing
@@ -1828,6 +1869,17 @@ func ruleNoSkip(w *World, r *Report, fn string) {
 						bi, isIn := base.(ssa.Instruction)
 						if !isIn || !blocks[bi.Block()] {
 							scratch = false
+							continue
+						}
+						// the current value of a variable that lives outside the loop (a named
+						// result kept in memory, a captured list) is not a per-iteration scratch list
+						if ld, ok := loadOf(base); ok {
+							if al, ok := ld.(*ssa.Alloc); ok && !blocks[al.Block()] {
+								scratch = false
+							}
+							if _, ok := ld.(*ssa.FreeVar); ok {
+								scratch = false
+							}
 						}
 					}
 					if scratch && len(ai.Bases) > 0 {
@@ -2747,4 +2799,195 @@ func anySortBefore(f *ssa.Function, c *ssa.Call) bool {
 		}
 	})
 	return found
+}
+
+// ---------------------------------------------------------------- sort + Compact with a partial comparator
+
+// partialComparator: slices.SortFunc(list, cmp) precedes slices.Compact(list);
+// the elements are structs built in this function; the comparator looks at
+// some of their fields only, and a field it ignores is set from a value that
+// changes from element to element.  Elements that are equal as a whole are then
+// not necessarily adjacent after the sort, and Compact (which compares whole
+// elements) leaves duplicates.
+func partialComparator(w *World, f *ssa.Function, compact *ssa.Call) string {
+	if len(compact.Call.Args) < 1 {
+		return ""
+	}
+	arg := compact.Call.Args[0]
+	var sortCall *ssa.Call
+	instrs(f, func(in ssa.Instruction) {
+		sc, ok := in.(*ssa.Call)
+		if !ok || len(sc.Call.Args) != 2 {
+			return
+		}
+		if p, n := stdCallName(sc); p != "slices" || (n != "SortFunc" && n != "SortStableFunc") {
+			return
+		}
+		if !equivValue(sc.Call.Args[0], arg) && resolve(sc.Call.Args[0]) != resolve(arg) {
+			return
+		}
+		if sc.Block() == compact.Block() || sc.Block().Dominates(compact.Block()) {
+			sortCall = sc
+		}
+	})
+	if sortCall == nil {
+		return ""
+	}
+	var cmpFn *ssa.Function
+	switch x := resolve(sortCall.Call.Args[1]).(type) {
+	case *ssa.MakeClosure:
+		cmpFn, _ = x.Fn.(*ssa.Function)
+	case *ssa.Function:
+		cmpFn = x
+	}
+	if cmpFn == nil || cmpFn.Blocks == nil || len(cmpFn.Params) != 2 {
+		return ""
+	}
+	st, ok := cmpFn.Params[0].Type().Underlying().(*types.Struct)
+	if !ok {
+		if pt, isP := cmpFn.Params[0].Type().Underlying().(*types.Pointer); isP {
+			st, ok = pt.Elem().Underlying().(*types.Struct)
+		}
+		if !ok {
+			return ""
+		}
+	}
+	// fields the comparator reads (through getters or directly)
+	read := map[*types.Var]bool{}
+	opaque := false
+	instrs(cmpFn, func(in ssa.Instruction) {
+		switch x := in.(type) {
+		case *ssa.Call:
+			g := calleeOf(x)
+			if g == nil {
+				return
+			}
+			if fv := accessorField(g); fv != nil {
+				read[fv] = true
+				return
+			}
+			// the whole element handed to something else: it may look at every field
+			for _, a := range x.Call.Args {
+				if v := resolve(a); v == ssa.Value(cmpFn.Params[0]) || v == ssa.Value(cmpFn.Params[1]) {
+					opaque = true
+				}
+				if ld, ok := loadOf(a); ok {
+					if al, ok := ld.(*ssa.Alloc); ok {
+						if sv := singleStoreAny(al); sv == ssa.Value(cmpFn.Params[0]) || sv == ssa.Value(cmpFn.Params[1]) {
+							opaque = true
+						}
+					}
+				}
+			}
+		case *ssa.FieldAddr:
+			if fv, _, ok := fieldOf(x); ok {
+				read[fv] = true
+			}
+		case *ssa.Field:
+			if x.Field < st.NumFields() {
+				read[st.Field(x.Field)] = true
+			}
+		case *ssa.BinOp:
+			// a == b on whole elements
+			if (x.Op == token.EQL || x.Op == token.NEQ) && types.Identical(x.X.Type(), cmpFn.Params[0].Type()) {
+				opaque = true
+			}
+		}
+	})
+	if opaque || len(read) == 0 {
+		return ""
+	}
+	var ignored []*types.Var
+	for i := 0; i < st.NumFields(); i++ {
+		if !read[st.Field(i)] {
+			ignored = append(ignored, st.Field(i))
+		}
+	}
+	if len(ignored) == 0 {
+		return ""
+	}
+	// how the ignored fields of the elements are set: setter calls and field stores on local
+	// element variables, in f -- or, when f is a helper that receives the list, in its callers
+	builders := []*ssa.Function{f}
+	if _, isParam := resolve(arg).(*ssa.Parameter); isParam {
+		for _, g := range w.ModFuncs {
+			if g.Blocks == nil || g == f {
+				continue
+			}
+			calls := false
+			instrs(g, func(in ssa.Instruction) {
+				if c, ok := in.(*ssa.Call); ok && calleeOf(c) == f {
+					calls = true
+				}
+			})
+			if calls {
+				builders = append(builders, g)
+			}
+		}
+	}
+	bad := ""
+	for _, bf := range builders {
+		loops := naturalLoops(bf)
+		varying := func(v ssa.Value) bool {
+			v = resolve(v)
+			in, ok := v.(ssa.Instruction)
+			if !ok {
+				return false // parameter, constant
+			}
+			return innermostLoop(loops, in.Block()) != nil
+		}
+		instrs(bf, func(in ssa.Instruction) {
+			if bad != "" {
+				return
+			}
+			switch x := in.(type) {
+			case *ssa.Call:
+				g := calleeOf(x)
+				if g == nil || !isSetter(w, g) || len(x.Call.Args) < 2 {
+					return
+				}
+				for pi, fv := range setterFields(g) {
+					if pi >= len(x.Call.Args) {
+						continue
+					}
+					for _, ig := range ignored {
+						if fv == ig && varying(x.Call.Args[pi]) {
+							bad = fmt.Sprintf("the comparator of %s ignores field %s, which is set from %s (different from element to element)", shortInstr(sortCall), ig.Name(), describeValue(x.Call.Args[pi]))
+						}
+					}
+				}
+			case *ssa.Store:
+				if fv, _, ok := fieldOf(x.Addr); ok {
+					for _, ig := range ignored {
+						if fv == ig && varying(x.Val) {
+							bad = fmt.Sprintf("the comparator of %s ignores field %s, which is set from %s (different from element to element)", shortInstr(sortCall), ig.Name(), describeValue(x.Val))
+						}
+					}
+				}
+			}
+		})
+	}
+	return bad
+}
+
+// setterFields: parameter index -> field of the receiver the setter stores it into.
+func setterFields(g *ssa.Function) map[int]*types.Var {
+	out := map[int]*types.Var{}
+	if g.Blocks == nil {
+		return out
+	}
+	instrs(g, func(in ssa.Instruction) {
+		st, ok := in.(*ssa.Store)
+		if !ok {
+			return
+		}
+		fv, _, ok := fieldOf(st.Addr)
+		if !ok {
+			return
+		}
+		if pi := paramIndex(g, resolve(st.Val)); pi > 0 {
+			out[pi] = fv
+		}
+	})
+	return out
 }
